@@ -229,7 +229,7 @@ func (historyEngine) Gen(r *Rand, tier string) any {
 		var avail []int
 		if len(op.Forms) > 0 {
 			for id := i*40 + 1; id <= i*40+39; id++ {
-				if src := Src(op.Forms); strings.Contains(src, fmt.Sprintf("(sim:fp %d ", id)) || strings.Contains(src, fmt.Sprintf("(sim:fpo %d ", id)) {
+				if src := Src(op.Forms); strings.Contains(src, fmt.Sprintf("sim:fp %d ", id)) || strings.Contains(src, fmt.Sprintf("(sim:fpo %d ", id)) {
 					avail = append(avail, id)
 				}
 			}
